@@ -26,13 +26,21 @@ TextConflict._resolve swaps the item with item.<winner> and re-versions the winn
 resolve with "THIS" / "OTHER".
 Does not decide: that Merge3 yields markers exactly for conflicting regions (library), nor sentinel collisions with user text.
 """
-IMPLS = [("Merge3Merger", "retval['text_conflicts'] is True"), ("WeaveMerger", "base_lines is not None"), ("Diff3Merger", "status == 1")]
+#: (class, conflict indicator, roles of the locals the indicator names — bound by what they hold, see astutil.bind_roles)
+IMPLS = [
+    ("Merge3Merger", "retval['text_conflicts'] is True", {"retval": ("assign", "{}")}),
+    ("WeaveMerger", "base_lines is not None", {"base_lines": ("assign", "~self\\._merged_lines\\(\\w+\\)", 1)}),
+    ("Diff3Merger", "status == 1", {"status": ("assign", "~breezy\\.patch\\.diff3\\(.*\\)")}),
+]
 
 
 def run(ctx):
     repo = ctx.repo
-    for cname, indicator in IMPLS:
+    from ..astutil import bind_roles, canonicalise
+
+    for cname, indicator, roles in IMPLS:
         fn = repo.func(MG, f"{cname}.text_merge")
+        fn = canonicalise(fn, bind_roles(fn, roles, f"{MG}:{cname}.text_merge"))
         where = f"{MG}:{cname}.text_merge"
         g = build_cfg(fn)
         rec = calling(g, attr="append", argpred=lambda c: (norm(c.func.value) or "").endswith("_raw_conflicts"))
@@ -57,6 +65,7 @@ def run(ctx):
     # ---- sentinel def-use (Merge3Merger) ------------------------------------------
     fn = repo.func(MG, "Merge3Merger.text_merge")
     where = f"{MG}:Merge3Merger.text_merge"
+    fn = canonicalise(fn, bind_roles(fn, IMPLS[0][2], where))
     inner = [n for n in ast.walk(fn) if isinstance(n, ast.FunctionDef) and n is not fn]
     ctx.require(len(inner) == 1, f"{where}: nested iterator not found")
     it = inner[0]
@@ -123,7 +132,10 @@ def run(ctx):
             if gc.exit in g2.reach(xs, include_src=True):
                 ok = False
         ctx.check("resolve-removes-helpers", wc, ok, "a missing helper file does not stop the removal of the others (the swallowed error continues with the next file)", message="when one helper file is already missing the swallowed FileNotFoundError leaves the loop: the remaining helper files (.THIS/.OTHER) stay behind although the conflict is marked resolved")
+    from .c20 import RESOLVE_ROLES
+
     fr = repo.func(CG, "resolve")
+    fr = canonicalise(fr, bind_roles(fr, RESOLVE_ROLES, f"{CG}:resolve"))
     wr = f"{CG}:resolve"
     gr = build_cfg(fr)
     do = calling(gr, attr="do", recv="conflict")
